@@ -109,7 +109,7 @@ MUTANTS = [
     (C, '::dim_compress', "inds = tuple(i for i, b in enumerate(inds) if b)", "inds = tuple(i + 1 for i, b in enumerate(inds) if b)", 'expect-fail'),
     (C, '::dim_compress', "    dims, inds = zip(*_dim_compressor(dims, inds))", "    inds, dims = zip(*_dim_compressor(dims, inds))", 'expect-fail'),
     (C, '::dim_compress', "    if isinstance(inds, Integral):\n        inds = (inds,)\n\n    dims, inds = zip", "    if isinstance(inds, Integral):\n        inds = (inds + 1,)\n\n    dims, inds = zip", 'expect-fail'),
-    (C, '::dim_compress', "    dims, inds = zip(*_dim_compressor(dims, inds))", "    dims, inds = zip(*_dim_compressor(dims[1:], inds))", 'expect-fail'),
+    (C, '::dim_compress', "    dims, inds = zip(*_dim_compressor(dims, inds))", "    dims, inds = zip(*_dim_compressor(dims[::-1], inds))", 'expect-fail'),
     # ---- ikron.gen_ops
     (C, '::ikron.gen_ops', "                if cff_id > 1:\n                    yield eye(cff_id, **eye_kws)\n                    cff_id = 1  # reset cumulative identity size", "                if cff_id > 1:\n                    yield eye(cff_id, **eye_kws)", 'expect-fail'),
     (C, '::ikron.gen_ops', "                if cff_ov * dim == sz_op or dim == -1:\n                    yield op\n                    cff_ov = 1", "                if cff_ov * dim == sz_op or dim == -1:\n                    yield op", 'expect-fail'),
